@@ -238,6 +238,11 @@ def run(ctx):
     # ---------------- R14.5 clone drops the vertex cache
     R = 'R14.5'
     ctx.rule(R, 'Universal2DBox::clone never carries the vertex cache')
+    clone_rule(ctx, R)
+
+
+def clone_rule(ctx, R):
+    """Universal2DBox::clone never carries the vertex cache; intersection() works on fresh clones (shared with C08)"""
     cl = ctx.anchor(R, '<utils::bbox::Universal2DBox as std::clone::Clone>::clone')
     if cl is not None:
         e = ExprBuilder(cl).place(0, ())
